@@ -4,3 +4,7 @@ From MV Require Import Codec.IngestDefs Codec.ExportIngestDefs.
 From MV Require Gen.Ladder.
 Definition accepts_export_current : bool := Eval vm_compute in accepts_export_tables Gen.Ladder.table.
 Print accepts_export_current.
+From MV Require Import Codec.ObjDigits.
+From MV Require Gen.ObjPrecision.
+Definition obj_format_current : bool := Eval vm_compute in obj_format_ok Gen.ObjPrecision.obj_precision Gen.ObjPrecision.obj_scientific.
+Print obj_format_current.
